@@ -22,10 +22,46 @@ def extra_obligations(notes):
     tab = json.load(open(os.path.join(vlib.VERIF, "tools", "c06_sites.json")))
     thms = set(t.split(".")[-1] for t in vlib.theorems_in(os.path.join(vlib.LEAN, "Vlsp", "Props", "C06.lean")))
     obligations, discharged, problems = [], [], []
+    import re, collections
+
+    def shape(kind, line):
+        """the panicking expressions of a line with its local names abstracted (method, field and function names kept):
+        what a site's justification is about; renaming a variable or moving the expression into a helper keeps it"""
+        code = re.sub(r'"(?:[^"\\]|\\.)*"', '""', line)
+        kinds = kind.split("+")
+        if any(k in ("unwrap", "expect", "macro", "split_at") for k in kinds):
+            frags = [re.sub(r"^(let (mut )?\w+ = |return )", "", code)]
+        else:
+            frags = [m.group(0) for k, pat in extract.PANIC_PATTERNS if k in kinds for m in re.finditer(pat, code)]
+        names = {}
+
+        def rep(m):
+            return names.setdefault(m.group(0), f"_{len(names) + 1}")
+        return kind + "|" + ",".join(re.sub(r"(?<![\w.])[A-Za-z_]\w*(?!\s*[\w(])", rep, fr) for fr in frags)
+    # the obligations of the table by (file, shape): a site of the current source that the table does not list by its exact
+    # text inherits the obligation of the listed sites of the same file and shape, provided they all carry the same one and
+    # the source has no more sites of that shape than the table (a moved or renamed expression - never an additional one)
+    tab_kind = {}
+    for f, fn, kind, line in sites:
+        tab_kind.setdefault(f"{f}|{fn}|{line}", kind)
+    by_shape = collections.defaultdict(list)
+    for key, by in tab["sites"].items():
+        f, fn, line = key.split("|", 2)
+        for kind in set([tab_kind.get(key)] if tab_kind.get(key) else [k for k, _ in extract.PANIC_PATTERNS]):
+            by_shape[(f, shape(kind, line))].append(by)
+    cur_shape = collections.Counter((f, shape(kind, line)) for f, fn, kind, line in sites)
+    moved = []
     for f, fn, kind, line in sites:
         key = f"{f}|{fn}|{line}"
         obligations.append(key)
         by = tab["sites"].get(key)
+        if not by:
+            sh = (f, shape(kind, line))
+            cands = by_shape.get(sh, [])
+            if cands and len(set(cands)) == 1 and cur_shape[sh] <= len(cands):
+                by = cands[0]
+                moved.append({"site": f"{f} fn {fn}: {line}", "inherits": by})
+                tab["sites"][key] = by
         if not by:
             problems.append(f"potential panic site with no obligation: {f} fn {fn} [{kind}]: {line}")
             continue
@@ -38,6 +74,7 @@ def extra_obligations(notes):
                 ok = False; problems.append(f"site {key}: unknown class {name}")
         if ok:
             discharged.append(key)
+    notes["moved_or_renamed_sites"] = moved
     notes["panic_sites"] = {"in_source": len(sites), "discharged": len(discharged),
                             "by_theorem": sum(1 for k in discharged if "theorem:" in tab["sites"][k]),
                             "by_class_only": sum(1 for k in discharged if "theorem:" not in tab["sites"][k])}
